@@ -33,7 +33,7 @@ OPS = ["nps", "nps", "nps", "subscript", "subscript", "subscript_get", "map_prot
 def required(tier):
     return ["op:subscript:absent", "op:nps:absent_instrument", "op:nps:absent_difficulty", "op:nps:noteless", "op:nps:bad_interval",
             "op:nps:ok", "op:render", "op:hash", "op:derived", "op:query_bad", "op:compare", "assign:NoteEvent", "assign:InstrumentTrack",
-            "assign:BPMEvent", "assign:StarPowerEvent", "assign:TextEvent"]
+            "assign:BPMEvent", "assign:StarPowerEvent", "assign:TextEvent", "chart_parsed_with_a_selection"]
 
 
 def shards(tier, seed):
@@ -345,7 +345,8 @@ def install_contracts():
 # ------------------------------------------------------------------------------------------ driver
 def run_case(rec, case: dict) -> None:
     text, ops, seed_key = case["text"], case["ops"], case["opseed"]
-    a, b = harness.parse(text), harness.parse(text)
+    want = harness.pairs([tuple(p) for p in case["want"]]) if case.get("want") is not None else None
+    a, b = harness.parse(text, want), harness.parse(text, want)
     if not (a.ok and b.ok):
         rec.diag(f"case did not parse: {harness.exc_str(a.exc or b.exc)}")
         return
@@ -354,11 +355,23 @@ def run_case(rec, case: dict) -> None:
     try:
         # equality and stored fields BEFORE anything derived is read; then the first full observation (which reads every
         # derived attribute) is itself judged as a read-only operation
+        raw_pre = observe.raw(chart)  # stored fields, read before ANY comparison
         eq0 = (bool(chart == twin), bool(twin == chart))
         if not (eq0[0] and eq0[1]):
             rec.diag("twin differs from chart before any operation (C17's business); case skipped")
             return
         raw0 = observe.raw(chart)
+        rec.ev()
+        rec.cls("op:first_comparison_with_twin")
+        if raw0 != raw_pre:
+            import json as _json
+
+            a_, b_ = _json.loads(raw_pre), _json.loads(raw0)
+            where = [k for k in a_ if a_[k] != b_[k]]
+            rec.violation("state-changed", f"comparing the chart with its twin (==) changed the chart's stored data: sections {where}"
+                          + (f": key structure {a_['keys']} -> {b_['keys']}" if "keys" in where else ""),
+                          {"text": text, "ops": [], "opseed": seed_key, "want": case.get("want")}, "state-changed-by:comparison")
+            return
         before = state(chart, twin)
         rec.ev()
         rec.cls("op:first_observation_reads_derived_attributes")
@@ -371,7 +384,7 @@ def run_case(rec, case: dict) -> None:
             tw = [k for k in a["tracks"] if a["tracks"][k] != b["tracks"].get(k)] if "tracks" in where else []
             rec.violation("state-changed", "reading the chart's public and derived attributes (end_tick, longest_sustain, "
                           f"last_note_end_timestamp, header_tag, ...) changed its stored data: sections {where} {tw[:3]}; "
-                          f"equality with the twin now {before[1:3]}", {"text": text, "ops": [], "opseed": seed_key},
+                          f"equality with the twin now {before[1:3]}", {"text": text, "ops": [], "opseed": seed_key, "want": case.get("want")},
                           "state-changed-by:reading-derived-attributes")
             return
         import random
@@ -393,12 +406,12 @@ def run_case(rec, case: dict) -> None:
                 what = describe_change(before, after)
                 mech = f"state-changed-by:{label}"
                 rec.violation("state-changed", f"read-only operation #{k} '{label}' changed the chart: {what}",
-                              {"text": text, "ops": ops[:k + 1], "opseed": seed_key}, mech)
+                              {"text": text, "ops": ops[:k + 1], "opseed": seed_key, "want": case.get("want")}, mech)
                 return
             before = after
         for bch in contracts.drain("C19"):
-            rec.violation("contract", bch["message"], {"text": text, "ops": ops, "opseed": seed_key}, "state-changed-in-successful-call")
-        assignment_probes(rec, chart, {"text": text, "ops": [], "opseed": seed_key})
+            rec.violation("contract", bch["message"], {"text": text, "ops": ops, "opseed": seed_key, "want": case.get("want")}, "state-changed-in-successful-call")
+        assignment_probes(rec, chart, {"text": text, "ops": [], "opseed": seed_key, "want": case.get("want")})
         if len(ops) >= 5 and absentish:
             rec.key([text, ops, seed_key])
     finally:
@@ -419,6 +432,12 @@ def run_shard(shard, rec, tier, seed):
         n_ops = rng.choice([5, 10, 20, 40, 120])
         ops = [rng.choice(OPS) for _ in range(n_ops)]
         c = {"text": case["text"], "ops": ops, "opseed": f"{seed}/{shard['name']}/{i}"}
+        keys = sorted(case["truth"]["tracks"])
+        if i % 4 == 1 and keys:
+            # a selection that drops every difficulty of some instrument, keeps others, names absent pairs
+            drop = keys[0].split("/")[0]
+            c["want"] = [k.split("/") for k in keys if k.split("/")[0] != drop] + [["KEYS", "EASY"]]
+            rec.cls("chart_parsed_with_a_selection")
         run_case(rec, c)
         if i < 1:
             rec.sample({"ops": ops[:12], "tracks": sorted(case["truth"]["tracks"]), "text_head": case["text"][:160]})
